@@ -212,9 +212,11 @@ class Run:
         self.obligations.append((name, bool(ok), detail))
         if not ok: self.broken.append((name, detail))
     def known(self):
-        try: kf = json.load(open(os.path.join(VERIF, 'known_findings.json')))
-        except Exception: kf = {'findings': []}
-        return [f for f in kf.get('findings', []) if f.get('property') == self.prop and f.get('status') == 'known']
+        fs = []
+        for p in sorted(glob.glob(os.path.join(VERIF, 'known_findings', '*.json'))):
+            try: fs += json.load(open(p)).get('findings', [])
+            except Exception as e: print('warning: unreadable known-findings file', p, e)
+        return [f for f in fs if f.get('property') == self.prop and f.get('status') == 'known']
     def finish(self, level='proof', checker_cmd='', extra_cov=None, explanation=None):
         known = self.known()
         unlisted = []; listed = {}
